@@ -168,6 +168,10 @@ def reach():
         zero = [p for p in REACH[prop] if not pr.get(p)] + ["fault:" + f for f in FAULTS if not fk.get(f)]
         print("reach %s (tier %s): %d probes, stuck at zero: %s" % (prop, ev.get("tier"), len(REACH[prop]) + len(FAULTS), zero or "none"))
         bad += len(zero)
+        hunts, failed = pr.get("address_reused_after_drop", 0), pr.get("address_hunt_failed", 0)
+        print("  allocator seam: %d addresses steered, %d hunts failed" % (hunts, failed))
+        if failed > 0.02 * max(1, hunts):
+            bad += 1
     return 0 if bad == 0 else 1
 
 
